@@ -142,14 +142,18 @@ Definition impl_u (u : unit) (i : iface) (m : string) : bool :=
   | None => false
   end.
 
-(* FacadeAppleTV.connect: `if setup_data.protocol in self._protocol_handlers: continue` -
-   of several SetupData for the same protocol only the first one is set up *)
-Fixpoint eff (order : list unit) (done : list proto) : list unit :=
+(* FacadeAppleTV.connect over the added SetupData, each with what its connect() returned:
+   `if setup_data.protocol in self._protocol_handlers: continue` - of several SetupData for the
+   same protocol only the first CONNECTED one is set up; `if await setup_data.connect():` - a
+   SetupData whose connect() returned False registers nothing, maps no feature, and leaves the
+   protocol un-handled *)
+Fixpoint eff (order : list (unit * bool)) (done : list proto) : list unit :=
   match order with
   | [] => []
-  | u :: rest =>
+  | (u, ok) :: rest =>
       if memp (u_proto u) done then eff rest done
-      else u :: eff rest (done ++ [u_proto u])
+      else if ok then u :: eff rest (done ++ [u_proto u])
+      else eff rest done
   end.
 
 Definition unit_of (us : list unit) (p : proto) : option unit :=
@@ -161,7 +165,7 @@ Definition uhas (i : iface) (us : list unit) (p : proto) : bool :=
   match unit_of us p with Some u => u_has u i | None => false end.
 
 (* what the features interface answers after the SetupData `order` were added and connected *)
-Definition feature_of_units (prio : list proto) (push_updates : feature) (order : list unit)
+Definition feature_of_units (prio : list proto) (push_updates : feature) (order : list (unit * bool))
            (f : feature) : fres :=
   let us := eff order [] in
   feature_of prio (ufeats us) (uhas IFeatures us) (uhas IPushUpdater us) push_updates
